@@ -24,6 +24,10 @@ var zzvCfgs = []zzvCfg{
 	{2, 6, 1, 2, 4, 2, 2, 1},
 	{1, 3, 1, 1, 4, 3, 4, 2},
 	{2, 3, 2, 2, 6, 1, 1, 1},
+	// shortest pipeline with a one-entry top port: a second response becomes
+	// ready while the first still occupies the outgoing buffer (failed Send)
+	// within the quick tier's cycle bound
+	{1, 6, 1, 1, 0, 0, 1, 2},
 }
 
 // addresses: same address, neighbouring dword, another interleave block / bank,
